@@ -346,6 +346,24 @@ fn dispatch(op: &str, args: &[Vec<u8>]) -> Result<Fields> {
             use sha3::Digest as _;
             vec![sha3::Keccak256::digest(arg(args, 0)?).to_vec()]
         }
+        // Keccak-256 (sha3 crate, not hdwallet's) of head || pattern repeated until `total` bytes of it are written:
+        // the expected digest of very large inputs without transferring them
+        "prim.keccak_fill" => {
+            use sha3::Digest as _;
+            let head = arg(args, 0)?;
+            let pattern = arg(args, 1)?;
+            let total: usize = text(arg(args, 2)?)?.parse()?;
+            anyhow::ensure!(!pattern.is_empty() || total == 0, "empty pattern");
+            let mut h = sha3::Keccak256::new();
+            h.update(head);
+            let mut left = total;
+            while left > 0 {
+                let n = left.min(pattern.len());
+                h.update(&pattern[..n]);
+                left -= n;
+            }
+            vec![h.finalize().to_vec()]
+        }
         "prim.hmac512" => {
             use hmac::Mac as _;
             let mut mac = hmac::Hmac::<sha2::Sha512>::new_from_slice(arg(args, 0)?)?;
